@@ -27,40 +27,40 @@ Print Assumptions C17_never_again.
 
 (* the operations of the low level API, at every tree depth the code accepts
    (the rows are the flattening of the whole tree) *)
-Theorem C17_table_scan : forall pg U npages root l oe k, (1 <= k <= length l)%nat ->
-  table_rows pg U npages root = (l, oe) ->
-  table_scan pg U npages _ root (tcollect (Some k)) [] = (Stop, rev (firstn k l)).
+Theorem C17_table_scan : forall pg op npages root l oe k, (1 <= k <= length l)%nat ->
+  table_rows pg op npages root = (l, oe) ->
+  table_scan pg op npages _ root (tcollect (Some k)) [] = (Stop, rev (firstn k l)).
 Proof. exact table_scan_stop. Qed.
 Print Assumptions C17_table_scan.
 
-Theorem C17_index_scan : forall pg U npages root l oe k, (1 <= k <= length l)%nat ->
-  index_rows pg U npages root = (l, oe) ->
-  index_scan pg U npages _ root (stop_after (Some k)) [] = (Stop, rev (firstn k l)).
+Theorem C17_index_scan : forall pg op npages root l oe k, (1 <= k <= length l)%nat ->
+  index_rows pg op npages root = (l, oe) ->
+  index_scan pg op npages _ root (stop_after (Some k)) [] = (Stop, rev (firstn k l)).
 Proof. exact index_scan_stop. Qed.
 Print Assumptions C17_index_scan.
 
-Theorem C17_scan_min : forall pg U npages root from l k,
-  index_rows pg U npages root = (l, None) -> mono (search from) l ->
+Theorem C17_scan_min : forall pg op npages root from l k,
+  index_rows pg op npages root = (l, None) -> mono (search from) l ->
   (1 <= k <= length (drop_lt (search from) l))%nat ->
-  index_scan_min pg U npages _ root from (stop_after (Some k)) []
+  index_scan_min pg op npages _ root from (stop_after (Some k)) []
   = (Stop, rev (firstn k (drop_lt (search from) l))).
 Proof. exact index_scan_min_stop. Qed.
 Print Assumptions C17_scan_min.
 
-Theorem C17_scan_range : forall pg U npages root from to l k,
-  index_rows pg U npages root = (l, None) -> mono (search from) l ->
+Theorem C17_scan_range : forall pg op npages root from to l k,
+  index_rows pg op npages root = (l, None) -> mono (search from) l ->
   let seg := take_while (fun r => negb (search to r)) (drop_lt (search from) l) in
   (1 <= k <= length seg)%nat ->
-  outcome (index_scan_range pg U npages _ root from to (stop_after (Some k)) [])
+  outcome (index_scan_range pg op npages _ root from to (stop_after (Some k)) [])
   = (None, rev (firstn k seg)).
 Proof. exact index_scan_range_stop. Qed.
 Print Assumptions C17_scan_range.
 
-Theorem C17_scan_eq : forall pg U npages root key l k,
-  index_rows pg U npages root = (l, None) -> mono (search key) l ->
+Theorem C17_scan_eq : forall pg op npages root key l k,
+  index_rows pg op npages root = (l, None) -> mono (search key) l ->
   let seg := take_while (equals key) (drop_lt (search key) l) in
   (1 <= k <= length seg)%nat ->
-  outcome (index_scan_eq pg U npages _ root key (stop_after (Some k)) [])
+  outcome (index_scan_eq pg op npages _ root key (stop_after (Some k)) [])
   = (None, rev (firstn k seg)).
 Proof. exact index_scan_eq_stop. Qed.
 Print Assumptions C17_scan_eq.
